@@ -649,6 +649,20 @@ class Facts:
                     return b
         return None
 
+    def const_str_of(self, op, crate="cucumber", depth=0):
+        """const_str, also through a named `const X: &str = "..";` (the operand then names the constant: its initialiser is a body)."""
+        v = const_str(op)
+        if v is not None:
+            return v
+        c = op_const(op)
+        if c is None or depth > 2 or not c.get("ty", "").endswith("str"):
+            return None
+        cb = self.body(re.sub(r"^const ", "", c["text"]), crate)
+        if cb is None:
+            return None
+        vals = {self.const_str_of(o, crate, depth + 1) for _, st in cb.assigns(lambda st: st["pl"]["l"] == 0 and not st["pl"]["p"]) for o in rvalue_operands(st["rv"])}
+        return vals.pop() if len(vals) == 1 else None
+
     def callee_body_impl(self, term, crate="cucumber"):
         """callee_body, or - for a trait call the compiler could not resolve in generic code - the unique crate-local impl
         of that trait for the receiver's ADT (`<FailOnSkipped<T> as From<T>>::from` -> the body of that impl's `from`)."""
